@@ -550,7 +550,8 @@ def _calculate_atom_states(
         siteno, index = site_index.T
 
         if key is not None:
-            siteno = integer_remap(a=siteno, key=key, palette=np.unique(siteno))
+            # `siteno` indexes the sites of this label group, map to the index in `sites`
+            siteno = integer_remap(a=siteno, key=key, palette=np.arange(len(key)))
 
         atom_sites[index] = siteno
 
